@@ -1,4 +1,4 @@
-import Ledger.Proofs.Reads
+import Ledger.Proofs.ReadsMeta
 
 /-!
 C17 (read path) — metadata reads reflect the latest write, history reflects the past.
@@ -61,33 +61,56 @@ theorem revision_lookup_append (revs : List Revision) (d : Int) (m : Metadata) (
     revisionAt (revs ++ [(d, m)]) t = if d ≤ t then m else revisionAt revs t :=
   revisionAt_append revs d m t
 
-/-- The documented transaction metadata at `t` is the Spec's `metaAt` whenever the transaction
-    was inserted at or before `t` (they differ only on back-dated transactions read between their
-    timestamp and their insertion, where the read — in effective time — shows the initial metadata). -/
-theorem tx_meta_doc_eq_metaAt (l : Ledger) (id : Nat) (t : Int)
-    (h : ∀ tx am up, Event.committed tx am up ∈ l.events → tx.id = id → tx.insertedAt ≤ t) :
-    txMetaDoc l id (some t) = metaAt l (.tx id) (some t) := by
-  unfold txMetaDoc metaAt
-  apply foldl_congr_mem
-  intro m e he
-  cases e with
-  | committed tx am up =>
-    by_cases hid : tx.id = id
-    · have := h tx am up he hid
-      simp [txMetaDocStep, metaStep, hid, this]
-    · simp [txMetaDocStep, metaStep, hid]
-  | reverted i d => rfl
-  | metaWrite ev => simp [txMetaDocStep, metaStep]
+/-- **History SYNC ⇒ a read at `t` returns the metadata as it was at `t`** (accounts), for every
+    journal in date order (dates may repeat; back-dated and future-dated *timestamps* are
+    unrestricted — only the write dates are ordered, as a sequential history produces them), every
+    account, every instant: the latest revision dated ≤ t carries exactly the Spec's fold of the
+    writes dated ≤ t — metadata carried by transactions, saves, deletes, no-op saves (no new
+    revision), first-usage-only updates (a revision with unchanged metadata) included. -/
+theorem meta_at_t_sync (feat : Features) (l : Ledger) (a : String) (t : Int) (h : feat.acctMetaHist = true)
+    (hc : Chrono l.events) (hrev : RevertsCarryNoMeta a l.events) :
+    accountMetaRead feat l a (some t) = metaAt l (.account a) (some t) := by
+  unfold accountMetaRead accountMetaReadV acctRowOfV metaAt
+  simp only [h, if_true]
+  have key : ∃ lb', AcctInv t (l.events.foldl (acctStepV .current a) none)
+      (l.events.foldl (metaStep (.account a) none) []) (l.events.foldl (metaStep (.account a) (some t)) []) lb' := by
+    cases hes : l.events with
+    | nil => exact ⟨0, fun _ => rfl, Map.WF_nil, rfl, rfl⟩
+    | cons e es =>
+      rw [hes] at hc hrev
+      have hch' := List.pairwise_cons.mp hc
+      exact AcctInv_fold t a (e :: es) none [] [] (eventDate e) ⟨fun _ => rfl, Map.WF_nil, rfl, rfl⟩
+        (fun x hx => by
+          rcases List.mem_cons.mp hx with rfl | hx
+          · exact Int.le_refl _
+          · exact hch'.1 x hx) hc hrev
+  obtain ⟨lb', _, _, hk⟩ := key
+  cases hrow : l.events.foldl (acctStepV .current a) none with
+  | none => rw [hrow] at hk; exact hk.2.symm
+  | some r => rw [hrow] at hk; exact hk.2.1
 
-/-- Current metadata: the two folds coincide. -/
-theorem tx_meta_doc_current (l : Ledger) (id : Nat) : txMetaDoc l id none = metaAt l (.tx id) none := by
-  unfold txMetaDoc metaAt
-  apply foldl_congr_mem
-  intro m e _
-  cases e with
-  | committed tx am up => by_cases hid : tx.id = id <;> simp [txMetaDocStep, metaStep, hid]
-  | reverted i d => rfl
-  | metaWrite ev => simp [txMetaDocStep, metaStep]
+/-- … and the current metadata of the row is the fold of all writes (last write wins per key,
+    deleted keys removed). -/
+theorem current_meta_eq_fold (l : Ledger) (a : String) (r : AcctRow)
+    (hc : Chrono l.events) (hrev : RevertsCarryNoMeta a l.events) (hr : acctRowOf l a = some r) :
+    r.metadata = metaAt l (.account a) none := by
+  unfold acctRowOf acctRowOfV at hr
+  unfold metaAt
+  have key : ∃ lb', AcctInv 0 (l.events.foldl (acctStepV .current a) none)
+      (l.events.foldl (metaStep (.account a) none) []) (l.events.foldl (metaStep (.account a) (some 0)) []) lb' := by
+    cases hes : l.events with
+    | nil => exact ⟨0, fun _ => rfl, Map.WF_nil, rfl, rfl⟩
+    | cons e es =>
+      rw [hes] at hc hrev
+      have hch' := List.pairwise_cons.mp hc
+      exact AcctInv_fold 0 a (e :: es) none [] [] (eventDate e) ⟨fun _ => rfl, Map.WF_nil, rfl, rfl⟩
+        (fun x hx => by
+          rcases List.mem_cons.mp hx with rfl | hx
+          · exact Int.le_refl _
+          · exact hch'.1 x hx) hc hrev
+  obtain ⟨lb', _, _, hk⟩ := key
+  rw [hr] at hk
+  exact hk.1
 
 /-- **Counterexample (code before fix 2c0d233) to "a read at time t returns the metadata as it was
     at t"** for accounts with history SYNC: `k` saved at 10, deleted at 20; the read at 15 already
